@@ -9,14 +9,14 @@ theorem SessInv.init : SessInv {} #[] :=
   ⟨⟨fun _ => none, SepWith.empty _⟩, ⟨rfl, fun i => by simp [PState.get],
     fun i p hp => by simp [PState.get] at hp⟩⟩
 
-theorem foldl_inv (basis : Array W) (ops : List Op) {s : HState} {ps : PState} (I : SessInv s ps) :
+theorem foldl_sessInv (basis : Array W) (ops : List Op) {s : HState} {ps : PState} (I : SessInv s ps) :
     SessInv (ops.foldl (fun s op => (s.step basis op).1) s) (ops.foldl (fun ps op => (ps.step basis op).1) ps) := by
   induction ops generalizing s ps with
   | nil => exact I
   | cons op ops ih => exact ih (step_ok basis I op).1
 
 theorem run_inv (basis : Array W) (ops : List Op) : SessInv (HState.run basis ops) (PState.run basis ops) :=
-  foldl_inv basis ops SessInv.init
+  foldl_sessInv basis ops SessInv.init
 
 theorem HState.run_append (basis : Array W) (ops ops' : List Op) :
     HState.run basis (ops ++ ops') = ops'.foldl (fun s op => (s.step basis op).1) (HState.run basis ops) := by
